@@ -78,7 +78,14 @@ def check_config(ctx, nodes, idmap, tr, par, stop, hidden, maxlevel, case, use_n
     ok = True
     for nm, itcls in ITERS:
         ctx.count("mon.C06.sequence")
-        got = list(itcls(nodes[s], **kw))
+        try:
+            got = list(itcls(nodes[s], **kw))
+        except Exception as e:  # noqa: B902 - the predicates never raise when called with a node
+            ctx.violation("C06/%s/raised-%s" % (nm, type(e).__name__), "restricted-reference-order",
+                          dict(case, start=s, stop=sorted(stop), hidden=sorted(hidden), maxlevel=maxlevel, kwargs=sorted(kw)),
+                          expected=exp[nm], observed=repr(e)[:300])
+            ok = False
+            continue
         if nm in ("group", "zigzag"):
             obs = [[idmap.get(id(x), "?") for x in g] for g in got]
         else:
